@@ -620,6 +620,7 @@ Proof.
     split; [exact Heq|split; [exact Hokt|split; [exact Hal|split; [exact Hbig|exact HtL]]]].
 Qed.
 
+Strategy opaque [enc_field search_table search_list].
 Lemma sim_write L e t f e' b : 0 <= L <= uint32_max -> sim L e t -> wf_f f ->
   enc_write e f = Some (e', b) -> exists t', Dec t b [f] t' /\ sim L e' t'.
 Proof.
